@@ -1,5 +1,6 @@
 from abc import ABCMeta
 import logging
+import re
 import importlib
 from antlr4 import *
 from antlr4.InputStream import InputStream
@@ -121,8 +122,11 @@ class AbstractAst:
         #TODO How to handle sub-formulas?
         entire_spec = self.modular_spec + self.spec
         
-        if not entire_spec.rstrip().endswith(';'):
-            entire_spec += ';'
+        # the final ';' may be omitted: it is looked for, and added, in front of
+        # the white space and comments the lexer skips at the end of the text
+        end = re.search(r'(?:\s|//[^\r\n]*|/\*.*?\*/)*\Z', entire_spec, re.DOTALL).start()
+        if not entire_spec[:end].endswith(';'):
+            entire_spec = entire_spec[:end] + ';' + entire_spec[end:]
         
         input_stream = InputStream(entire_spec)
         lexer = self.antrlLexerType(input_stream)
